@@ -137,6 +137,9 @@ func init() {
 		for _, cm := range br.Complaints {
 			fail(cm.Clause, "%s", cm.Detail)
 		}
+		if br.FlaggedEmpty > 0 && (obs.Spec.Body == nil || wire.CountFlaggedEmpty(obs.Spec.Body.Data) == 0) {
+			fail("req.envelope.empty-flagged-compressed", "%d message frame(s) reach the backend with the compressed flag over zero bytes, which is not a valid compressed stream; the client sent no such frame", br.FlaggedEmpty)
+		}
 		// protocol: one of the configured ones; the client's own if acceptable
 		sp := world.FormToProtocol(br.Form)
 		okProto := false
